@@ -883,8 +883,21 @@ class Exec:
             elem = lambda ex_, st_, i: objects.symlist_get(ex_, st_, src, i)
         elif isinstance(src, SeqV):
             n, elem = src.length, src.getter
+        elif isinstance(src, (LRef, Tup, tuple)):
+            # concrete sequence: evaluated element by element, like the loop it abbreviates
+            items = list(st.heap[src.sid].items) if isinstance(src, LRef) else list(src)
+            out, saved = [], st.env.get(gen.target.id, None)
+            had = gen.target.id in st.env
+            for it in items:
+                st.env[gen.target.id] = it
+                out.append(self.ev(e.elt, st))
+            if had:
+                st.env[gen.target.id] = saved
+            else:
+                st.env.pop(gen.target.id, None)
+            return self.alloc_list(st, out)
         else:
-            raise Undecided("list comprehension over a concrete sequence")
+            raise Undecided("list comprehension over this sequence")
         var, body = gen.target.id, e.elt
 
         def getter(ex_, st_, i):
@@ -1011,6 +1024,8 @@ class Exec:
     def call(self, st, f, args, kwargs, node):
         if isinstance(f, FuncV):
             return f.fn(self, st, args, kwargs, node)
+        if isinstance(f, ClsV) and getattr(f, "ctor", None) is not None:
+            return f.ctor(self, st, args, kwargs, node)       # a class that is both tested with isinstance and called
         from .contract import Contract
         if isinstance(f, Contract):
             return self.call_contract(st, f, args, kwargs, node)
